@@ -75,10 +75,17 @@ def run_check(pid: str, tier: str, seed: int, only_defs=None, replay_mode=False)
         # look-alikes of prelude names the UNCHANGED generator is immune to for this check's derives (established by experiment,
         # DESIGN.md 9.5): guards against a generated path that stops being absolute
         corpus.add_hostile_twins(mod.HOSTILE_OK, per_name=(6 if tier == "thorough" else 2))
+    if not getattr(mod, "NO_CONVENTIONAL_NAMES", False):
+        # generic definitions once more under the parameter names everybody writes ('a, T, COUNT ..): see Corpus.add_conventional_name_twins
+        corpus.add_conventional_name_twins(limit=(12 if tier == "thorough" else 6))
     if only_defs is not None:
         keep = set(only_defs)
         corpus.queries = [q for q in corpus.queries if q[1] in keep]
     R.log("corpus: %d definitions, %d queries" % (len(corpus.defs), len(corpus.queries)))
+
+    def rendered(k_, cfg_):
+        body = mod.render_def(k_, corpus.defs[k_], corpus.meta[k_], cfg_)
+        return R.conventional_names(body) if getattr(corpus.defs[k_], "conventional_names", False) else body
 
     # ---- 3. implementation side
     configs = mod.crate_configs(tier) if hasattr(mod, "crate_configs") else [{"name": pid.lower()}]
@@ -100,7 +107,7 @@ def run_check(pid: str, tier: str, seed: int, only_defs=None, replay_mode=False)
         for k, it in corpus.defs.items():
             if flt and not flt(k, corpus.meta[k]):
                 continue
-            cc.add(k, mod.render_def(k, it, corpus.meta[k], cfg))
+            cc.add(k, rendered(k, cfg))
         crates.append((cfg, cc))
 
     def build_one(pair):
@@ -161,7 +168,7 @@ def run_check(pid: str, tier: str, seed: int, only_defs=None, replay_mode=False)
             if expected_fail and expected_fail(k, corpus.meta[k], cfgname, msg):
                 continue
             violations.append({"kind": "build-failure", "config": cfgname, "definition": k,
-                               "rust_source": mod.render_def(k, corpus.defs[k], corpus.meta[k], {"name": cfgname}),
+                               "rust_source": rendered(k, {"name": cfgname}),
                                "model_item": corpus.defs[k].sexp(), "query": "cargo build",
                                "observed": msg[:3000],
                                "expected": "the derive(s) compile on this in-domain definition",
@@ -196,14 +203,14 @@ def run_check(pid: str, tier: str, seed: int, only_defs=None, replay_mode=False)
                         continue
                     blamed.add((cfgname, cc.shard_of(k)))
                     violations.append({"kind": "no-termination", "config": cfgname, "definition": k,
-                                       "rust_source": mod.render_def(k, corpus.defs[k], corpus.meta[k], cfg),
+                                       "rust_source": rendered(k, cfg),
                                        "model_item": corpus.defs[k].sexp(),
                                        "query": "%s %s" % (kind, " ".join(args)), "observed": "<the implementation did not answer within the stall limit: killed>",
                                        "expected": mobs, "family": corpus.meta[k].get("family")})
                     continue
                 if iobs is None:
                     violations.append({"kind": "no-answer", "config": cfgname, "definition": k,
-                                       "rust_source": mod.render_def(k, corpus.defs[k], corpus.meta[k], cfg),
+                                       "rust_source": rendered(k, cfg),
                                        "model_item": corpus.defs[k].sexp(),
                                        "query": "%s %s" % (kind, " ".join(args)), "observed": "<corpus binary died>",
                                        "expected": mobs, "family": corpus.meta[k].get("family")})
@@ -215,11 +222,11 @@ def run_check(pid: str, tier: str, seed: int, only_defs=None, replay_mode=False)
                 if nt:
                     nontrivial.add((k, kind, tuple(args), cfgname))
                 if len(samples) < 12 and (nt or len(samples) < 3) and (n % max(1, len(corpus.queries) // 12) == 0):
-                    samples.append({"definition": mod.render_def(k, corpus.defs[k], corpus.meta[k], cfg).split("pub fn ")[0][-600:].strip(),
+                    samples.append({"definition": rendered(k, cfg).split("pub fn ")[0][-600:].strip(),
                                     "query": "%s %s" % (kind, " ".join(args)), "implementation": iobs[:200], "model": mobs[:200]})
                 if not ok:
                     violations.append({"kind": "disagreement", "config": cfgname, "definition": k,
-                                       "rust_source": mod.render_def(k, corpus.defs[k], corpus.meta[k], cfg),
+                                       "rust_source": rendered(k, cfg),
                                        "model_item": corpus.defs[k].sexp(),
                                        "query": "%s %s" % (kind, " ".join(args)), "note": note,
                                        "observed": iobs[:2000], "expected": mobs[:2000], "detail": detail,
